@@ -2,22 +2,43 @@
 # Regenerates MANIFEST.json from the table below (kept in one place so it is always valid).
 import json
 CLAIMED = {
- "C02": dict(text="Bounded symbolic model checking of the real routing code: (O-0) lineIntersects is proved equal to an exact closed-segment/half-open-box oracle for all integer coordinates |c|<=2^60 (unbounded-integer SMT, 128-bit arithmetic of the kernel modelled exactly); (O-1) children extents tile the parent at its centre for every level pair, pixel size and address; (O-2) one quadtree descent step from an arbitrary parent with arbitrary occupancy and arbitrary segment returns exactly the occupied children met, in order of travel. With the paper induction over levels (DESIGN.md) this gives the routing statement for every depth. Recorded F1 witnesses are re-run natively on every run.",
-             note="Trusted: go/ssa, my SSA->SMT translation (replay + shadow validation), Z3; induction over quadtree levels is a paper argument; O-2 runs with lineIntersects replaced by its oracle, justified by O-0 in the same run. Internal-tier harnesses (unexported functions): skipped and reported if they stop type-checking.",
-             design="4 C02", technique="symbolic execution of go/ssa to SMT-LIB2 (nonlinear integer arithmetic), Z3; native replay"),
- "C09": dict(text="Bounded symbolic model checking of InsertPoint/InsertCoord: for every accepted built-in tile matrix set x tile matrix id (quick: ids 0, mid, max) and for synthetic grids with zero/negative/fractional/large origins, for every integer point outside the grid (any distance, |c|<2^61) or within 2-3 pixels of a border inside it: accepted <=> inside the half-open pixel grid, accepted => inside the extent, rejection is an OutsideGridError.",
-             note="Trusted: go/ssa, translation, Z3. The float->int step of FromGeomOrd is abstracted in these obligations (quantified over its integer result). Tile matrix set literals are generated natively from the current tree's embedded JSON.",
-             design="4 C09", technique="symbolic execution of go/ssa to SMT-LIB2 (linear integer arithmetic with division by constants), Z3; native replay"),
- "C17": dict(text="Bounded symbolic model checking that is exhaustive here: morton.ToZ/FromZ/MustToZ are executed symbolically from go/ssa in 64-bit bit-vector semantics with fully symbolic inputs; loops have constant trip counts, so the seven obligations (round trip, injectivity, onto, ok flag, MustToZ panic, parent, k-level ancestor) are decided by Z3 for all 2^128 input pairs.",
-             note="Trusted: go/ssa construction, my SSA->SMT-LIB translation (validated by native replay of every counterexample and by the mutation runs in DESIGN.md), Z3 5.1.0. uint = 64 bit.",
-             design="4 C17", technique="symbolic execution of go/ssa to SMT-LIB2 bit-vectors, Z3"),
+ "C01": dict(text="Bounded symbolic model checking of the whole snap.SnapPolygon pipeline executed from go/ssa: valid triangles with case-split pixel addresses in a 2x2-pixel window and fully symbolic sub-pixel positions (2^-10 px: every vertex-on-border, edge-through-corner and collinear alignment), all four flag combinations; plus a thin-shell-with-hole template over two tile matrices. On every feasible path no two returned edges cross properly. Thorough adds quadrilaterals, 3x3 windows, two levels (time-boxed). Rests on C02 (exact routing, all integers) and on the snap-rounding theorem for larger inputs (not machine-checked).",
+             note="Synthetic dyadic grid only (floats exact there; exactness side-conditions checked per operation). lineIntersects replaced by its oracle, justified by C02 O-0 on the same tree. Larger polygons are outside the bound.", design="A, 4 C01"),
+ "C02": dict(text="Bounded symbolic model checking of the real routing code: (O-0) lineIntersects is proved equal to an exact closed-segment/half-open-box oracle for all integer coordinates |c|<=2^60 (unbounded-integer SMT, 128-bit arithmetic of the kernel modelled exactly); (O-1) children extents tile the parent at its centre for every level pair, pixel size and address; (O-2) one quadtree descent step from an arbitrary parent with arbitrary occupancy and arbitrary segment returns exactly the occupied children met, in order of travel; (O-5) valid triangles whose routed boundary repeats no centre are returned as exactly that boundary, counter-clockwise. With the paper induction over levels (DESIGN.md) this gives the routing statement for every depth. Recorded F1 witnesses are re-run natively on every run.",
+             note="Trusted: go/ssa, my SSA->SMT translation (native replay of every counterexample, shadow validation, translator validation), Z3; induction over quadtree levels is a paper argument; O-2 runs with lineIntersects replaced by its oracle, justified by O-0 in the same run. Internal-tier harnesses are skipped and reported if they stop type-checking.", design="A, 4 C02"),
+ "C03": dict(text="(O-1) For every accepted built-in tile matrix set x deepest id x requested id (quick: {0,mid,max}^2) and a symbolic pixel address: pixel extent and centre are exactly min + X*span (+span/2), the pixel grid fills the extent up to the integer truncation, and the float centre is within the deviation DeviationStats reports (+ float noise) of corner + (X+1/2)*cellSize(0)/2^z/16 at both ends of each axis (error linear in X). (O-2/O-3) pipeline runs: every coordinate returned for tile matrix z is exactly a pixel centre of level z+4 of the synthetic grid, for id subsets {1},{0,1},{0,2},{0,1,2}.",
+             note="Ideal pixel size taken as cellSize(0)/2^z/16 (the per-level cell sizes of the JSON files are decimal roundings, see DESIGN C03). Internal tier for O-1 (unexported getQuadrantExtentAndCentroid).", design="A, 4 C03"),
+ "C04": dict(text="Pipeline runs on valid triangles (all sub-pixel positions): every output vertex is the centre of the pixel of an input vertex; every output edge is an exactly routed edge or straight run of one input ring (hence within half a pixel of an input edge) or passes the direct closed-box distance test. Unit-level obligation on hole matching (catalogues of nested/touching/disjoint shells and holes, every start vertex): each hole attached exactly once to a shell containing it, the smallest such. Thorough adds a fixed-shell/symbolic-hole template with coverage agreement at 49 probe locations farther than one pixel from the boundary (time-boxed).",
+             note="Coverage (the 'nothing is lost' part) is only checked in the thorough template and indirectly through C18 area preservation and the unit-level hole matching; polygons beyond the stated sizes are outside.", design="A, 4 C04"),
+ "C05": dict(text="Pipeline runs on arbitrary (valid or not) rings: 3 vertices on the 1/8-px lattice (one level) and on pixel borders/corners/centres (two levels), 4 vertices on pixel centres (two levels), a thin-shell-with-hole template and a self-crossing-hole template, each with keep-points-and-lines off and on in the same symbolic run and both winding flags: first ring shell, non-zero-area rings oriented by role and flag, no repeated vertex, >=3 vertices without keep, no empty lists, only requested ids, keep = drop + one- or two-vertex rings.",
+             note="Synthetic dyadic grid only: the repeated-vertex lookup on real (non-dyadic) grids (DESIGN F4) is NOT covered by this check.", design="A, 4 C05"),
+ "C06": dict(text="Pipeline runs without any validity assumption (rings of 1-2 points, any 3 vertices on the 1/8-px lattice, any 3 vertices on borders/corners/centres with two levels, any 4 vertices on pixel centres, thin-shell-with-hole and self-crossing-hole templates, all flag combinations): no path ends in a panic and none exceeds the instruction budget.",
+             note="Running time only as 'instruction budget not exceeded at these sizes'. Deepest level > 32 (Morton range, DESIGN F3) is outside.", design="A, 4 C06"),
+ "C07": dict(text="Two executions of SnapPolygon inside one symbolic run: (O-1) the second with a nondeterministic (forward/reversed) iteration order of every map range, at most one reversed range per path; plus a unit-level obligation on hole matching under up to three reversed ranges; (O-2) a valid triangle (all sub-pixel positions) given in either direction; (O-3) the reverse-winding flag only reverses rings of >=3 vertices.",
+             note="Map orders other than forward/reversed insertion order per range execution are outside; native replays of order-dependent counterexamples are repeated up to 300 times because the Go runtime randomises.", design="A, 4 C07"),
+ "C08": dict(text="Twin executions in one symbolic run: result for a tile matrix alone vs together with another one (pairs {0,1},{0,2},{1,2}) for arbitrary 3-vertex rings on pixel borders/corners/centres and for the thin-shell-with-hole template (shell collapsing at the coarse tile matrix only); result keys are the requested ids.",
+             note="Synthetic round grid; NetherlandsRDNewQuad is not run through the pipeline.", design="A, 4 C08"),
+ "C09": dict(text="(O-1) InsertPoint/InsertCoord for every accepted built-in tile matrix set x id (quick: ids 0, mid, max) and synthetic grids with zero/negative/fractional/large origins, for every integer point outside the grid (any distance, |c|<2^61) or within 2-3 pixels of a border inside it: accepted <=> inside the half-open pixel grid, accepted => inside the extent, rejection is an OutsideGridError. (O-4) SnapPolygon with vertices up to one pixel outside either grid corner: panic with OutsideGridError by default, empty result when ignoring.",
+             note="The float->int step of FromGeomOrd is abstracted in O-1 (quantified over its integer result); the float step itself is not verified (exact-FP queries do not finish).", design="A, 4 C09"),
+ "C10": dict(text="processing.ProcessFeatures executed by the interpreter (goroutines, unbuffered channels, WaitGroups modelled) for every stream of up to 2 features (polygon / multipolygon of 1-2 parts / point; thorough: 3) x 1-2 targets (thorough: 3) x every stub snapping outcome per polygon and tile matrix (absent / one / two polygons): each target receives exactly the expected features, in source order, with original (symbolic) attribute values and the geometry computed for its own tile matrix.",
+             note="One canonical schedule is executed; other schedules are covered by the Kahn-network argument whose premises are checked on every path's event log (see C11).", design="A, 4 C10"),
+ "C11": dict(text="For every path of the C10 exploration the synchronisation events of all goroutines are extracted and two SMT queries over all consistent cuts are discharged: no reachable deadlock, and ProcessFeatures cannot have returned while any synchronisation event of another goroutine is pending; Kahn premises (one sender and one receiver per channel, closed by the sender, no select) are checked on the log; send-on-closed / double close / negative counter would surface as panics. The canonical run additionally asserts that every target has finished when ProcessFeatures returns.",
+             note="Data races, goroutines alive after return in the real runtime and GOMAXPROCS effects are NOT covered (outside an event-order encoding). Cut counterexamples are only reported when a native replay (with slowed targets) confirms them.", design="A, 4 C11"),
+ "C14": dict(text="IsQuadTree on a tile matrix set of 1..4 matrices with symbolic 64-bit widths/heights/tile sizes, symbolic float64 origins, cell-size ratios from boundary values, and one position with free id string / corner / variable widths / id gap: acceptance implies every quadtree condition; validation never panics. Each of the 14 built-in sets: rejected, or accepted with pixel size = cell size/16 (1e-6) at every id.",
+             note="Non-nil PointOfOrigin assumed (decoder guarantees it); ids assumed to start at 0; fully symbolic cell sizes only in the time-boxed thorough tier.", design="A, 4 C14"),
+ "C15": dict(text="Every tile of every matrix up to 16x16 tiles and 64 border tiles of every larger matrix of every built-in set without variable widths: corner -> centre -> same tile; half a tile outside -> no tile; bounding box = corner of tile (0,0) .. corner of tile (w,h) up to float resolution; ToNative accepts one past the end and rejects beyond. Executed through the interpreter in exact machine semantics with case-split tile addresses; thorough adds solver-decided symbolic tile slices (time-boxed).",
+             note="Reduced bound: only tile centres and half-tile-outside points; arbitrary interior points (DESIGN F6, 1-ulp border effects) are NOT covered.", design="A, 4 C15"),
+ "C17": dict(text="Exhaustive within the 64-bit word: morton.ToZ/FromZ/MustToZ executed symbolically in bit-vector semantics with fully symbolic inputs (loops have constant trip counts): round trip, injectivity, onto, ok flag, MustToZ panic, parent and k-level ancestor relations are decided by Z3 for all 2^128 input pairs.",
+             note="Trusted: go/ssa, translation, Z3. uint = 64 bit.", design="4 C17"),
+ "C18": dict(text="Pipeline runs on valid triangles (all sub-pixel positions) whose exactly routed boundary visits no centre more than twice: every returned edge is a routed edge or straight run, holes inside or on their shell, signed area preserved; unit-level obligation on hole matching for configurations valid polygons produce. Thorough adds two levels, quadrilaterals and pentagons (time-boxed).",
+             note="The interesting collapsing shapes (comb teeth, pinched necks) need more vertices than the quick bound reaches; the unit-level hole matching and the templates cover part of that space.", design="A, 4 C18"),
 }
 NOT_APPLICABLE = {
  "C12": "substance is the content of a GeoPackage written by SQLite through cgo and SpatiaLite triggers; no symbolic encoding of that code is within reach",
  "C13": "whole-program behaviour through urfave/cli, os, the file system and cgo SQLite; not encodable",
  "C16": "reflection-driven JSON decoding/encoding (encoding/json, marshmallow, validator, defaults, regexp); no symbolic model of reflect within reach",
 }
-PENDING = ["C01","C03","C04","C05","C06","C07","C08","C09","C10","C11","C14","C15","C18"]
+PENDING = []
 checks=[]
 for pid,c in sorted(CLAIMED.items()):
     checks.append({
@@ -29,7 +50,7 @@ for pid,c in sorted(CLAIMED.items()):
         "engine": "gosmt",
         "level_claimed": {"category": "model_checking", "text": c["text"], "design_ref": c["design"]},
         "level_note": c["note"],
-        "technique": c["technique"],
+        "technique": c.get("technique", "symbolic execution of go/ssa to SMT-LIB2 (integers / bit-vectors / IEEE floats), Z3 5.1.0; native replay of counterexamples"),
     })
 na=[{"property_id":k,"reason":v} for k,v in sorted(NOT_APPLICABLE.items())]
 for p in PENDING:
